@@ -320,6 +320,17 @@ func TestVerifDriver(t *testing.T) {
 		if err := json.Unmarshal(raw, &c); err != nil {
 			return map[string]any{"error": err.Error()}
 		}
+		if c.N < 0 && (c.Prim == "lim" || c.Prim == "tl") {
+			// negative size: only the constructor's behaviour is recorded
+			panicked, _ := verifdrv.Catch(func() {
+				if c.Prim == "lim" {
+					NewLimit(c.N)
+				} else {
+					NewTimeoutLimit(c.N)
+				}
+			})
+			return map[string]any{"hist": [][6]int{}, "results": [][][2]int{}, "ctor_panic": panicked, "stuck": 0, "timeouts": 0}
+		}
 		return vRun(&c)
 	})
 }
@@ -712,6 +723,88 @@ func vRun(c *vCase) any {
 			})
 			env.log(th.id, kRet, 1, 0, op.C, 1)
 			return [2]int{1, op.C}
+		}
+	case "mr":
+		// resources are numbered by generate (k-th call returns k); equal compares numbers and may
+		// block on the gate of the MarkBroken in progress (it runs under mr.lock)
+		var gen int32
+		mr := NewManagedResource(func() any {
+			id := int(atomic.AddInt32(&gen, 1))
+			t := 999
+			if th := env.selfThread(); th != nil {
+				t = th.id
+			}
+			env.log(t, kBegin, 2, id, 0, 0)
+			return id
+		}, func(a, b any) bool {
+			if th := env.selfThread(); th != nil {
+				env.waitGate(th, env.curOp(th).B)
+			}
+			ai, aok := a.(int)
+			bi, bok := b.(int)
+			return aok && bok && ai == bi
+		})
+		exec = func(th *vThread, op vOp) [2]int {
+			env.log(th.id, kInv, op.Code, op.A, op.B, 0)
+			r := 0
+			if op.Code == 0 {
+				r, _ = mr.Take().(int)
+			} else {
+				mr.MarkBroken(op.A)
+			}
+			env.log(th.id, kRet, op.Code, r, 0, 0)
+			return [2]int{r, 0}
+		}
+	case "ir":
+		// the user fetch returns value A of the Get that triggered it (0 = nil, 999 = a typed nil
+		// pointer), with an error if C != 0 -- possibly a non-nil value together with the error
+		idOf := func(x any) int {
+			if x == nil {
+				return 0
+			}
+			if r, ok := x.(*vRes); ok {
+				if r == nil {
+					return 999
+				}
+				return r.id
+			}
+			return 998
+		}
+		ir := NewImmutableResource(func() (any, error) {
+			th := env.selfThread()
+			var cur vOp
+			t := 999
+			if th != nil {
+				cur, t = env.curOp(th), th.id
+			}
+			env.log(t, kBegin, 0, 0, nowMs(), 0)
+			if th != nil {
+				env.waitGate(th, cur.B)
+			}
+			var val any
+			switch {
+			case cur.A == 999:
+				val = (*vRes)(nil)
+			case cur.A != 0:
+				val = &vRes{id: cur.A, env: env}
+			}
+			if cur.C != 0 {
+				env.log(t, kEnd, 0, cur.A, nowMs(), 1)
+				return val, errVerifCreate
+			}
+			env.log(t, kEnd, 0, cur.A, nowMs(), 0)
+			return val, nil
+		}, WithRefreshIntervalOnFailure(time.Duration(c.M)*time.Millisecond))
+		exec = func(th *vThread, op vOp) [2]int {
+			env.log(th.id, kInv, 0, op.A, nowMs(), op.C)
+			r, err := ir.Get()
+			e := 0
+			if err != nil {
+				e = 1
+			}
+			id := idOf(r)
+			env.log(th.id, kRet, 0, id, e, 0)
+			return [2]int{id, e}
 		}
 	default:
 		return map[string]any{"error": "unknown primitive " + c.Prim}
